@@ -27,6 +27,8 @@ def Hist.bump (h : Hist) (k : String) (n : Nat := 1) : Hist :=
 def Hist.json (h : Hist) : String :=
   "{" ++ ",".intercalate (h.kv.map fun (k, n) => s!"\"{k}\":{n}") ++ "}"
 
+def knownAfKind : String := "af-optimistic-level-eq-depth-before-first-push-edge"
+
 structure Case where
   id : String := ""
   cfg : Cfg := { k := 0, lw := 1, lr := 1 }
@@ -44,6 +46,7 @@ structure Case where
   gray : Bool := false        -- case ties grayEncode/grayDecode at width `w`
   stream : Bool := false      -- case drives strm::fifo (ready/valid wrapper)
   fall : Bool := false
+  knownSeen : Bool := false   -- the known almost-full corner was already reported for this case
   specOk : Bool := true       -- false after the first PROPFAIL event of the case (the abstract queue is then out of step)
   active : Bool := false
   events : Nat := 0
@@ -175,10 +178,14 @@ def doEvent (d : D) (toks : List String) (lineNo : Nat) : IO D := do
     -- specification vs implementation
     let fillBefore := cs.q.queue.length
     let (viol, q') := if cs.specOk then qcheck c.N c.M c.lw cs.q e oi else ([], cs.q)
+    -- the known corner (flag only, the abstract queue stays in step) is reported once per case and does not end the spec check
+    let (kn, other) := viol.partition (· == knownAfKind)
+    let viol := (if cs.knownSeen then [] else kn) ++ other
     for v in viol do
       IO.println s!"PROPFAIL case={cs.id} line={lineNo} event={cs.events} kind={v} dual={if cs.dual then 1 else 0} fill={fillBefore} N={c.N} lw={c.lw} ev=[{" ".intercalate toks}]"
       d := { d with propfails := d.propfails + 1 }
-    if !viol.isEmpty then cs := { cs with specOk := false }
+    if !kn.isEmpty then cs := { cs with knownSeen := true }
+    if !other.isEmpty then cs := { cs with specOk := false }
     -- coverage of the boundary situations
     let mut cov := d.cov
     if e.pushRst || e.popRst then cov := cov.bump "reset_events"
@@ -346,10 +353,13 @@ def doTrans (d : D) (toks : List String) (lineNo : Nat) : IO D := do
         cs := { cs with tst := tstep c cs.tst e }
     let q := cs.tq
     let (viol, q') := if cs.specOk then tcheck c.N c.M c.lw q e oi else ([], q)
+    let (kn, other) := viol.partition (· == knownAfKind)
+    let viol := (if cs.knownSeen then [] else kn) ++ other
     for v in viol do
       IO.println s!"PROPFAIL case={cs.id} line={lineNo} event={cs.events} kind={v} committed={q.com.length} tentativePushed={q.tent.length} popCommitted={q.gc} popTentative={q.gt} N={c.N} lw={c.lw} ev=[{" ".intercalate toks}]"
       d := { d with propfails := d.propfails + 1 }
-    if !viol.isEmpty then cs := { cs with specOk := false }
+    if !kn.isEmpty then cs := { cs with knownSeen := true }
+    if !other.isEmpty then cs := { cs with specOk := false }
     let mut cov := d.cov
     if e.rst then cov := cov.bump "reset_events"
     else
